@@ -21,7 +21,8 @@ From Coq Require Import List Bool Arith PeanoNat.
 From Galene Require Import Model.Subscribe.
 From Galene Require Import Proofs.SubscribeSelect Proofs.SubscribeFrame Proofs.SubscribeInv
   Proofs.SubscribeStep Proofs.SubscribeHeap Proofs.SubscribeOwn Proofs.SubscribeOut
-  Proofs.SubscribeProps Proofs.SubscribeTeardown Proofs.SubscribeExact Proofs.SubscribeWitness.
+  Proofs.SubscribeProps Proofs.SubscribeTeardown Proofs.SubscribeExact Proofs.SubscribeFresh
+  Proofs.SubscribeSync Proofs.SubscribeWitness.
 Import ListNotations.
 
 (* ------------------------------------------------------------------ *)
@@ -193,14 +194,14 @@ Theorem C07_request_reaches_only_requester : forall w p g t id q,
 Proof. exact request_reaches_only_requester. Qed.
 Print Assumptions C07_request_reaches_only_requester.
 
-(* offered iff requested, PARTIAL: every evaluation of a pushed stream leaves
+(* every single evaluation of a pushed stream leaves
    the subscriber with exactly the tracks that requestedTracks selects from the
    tracks the stream had when it was pushed, under the request in force (the
    per-stream request, else the entry of the stream's label, else the default
    entry; an entry that is present and empty means "nothing") - or without the
    stream if nothing is selected or the stream has ended.  ts is the oracle
    "the stream has tracks of kinds ts". *)
-Theorem C07_offer_exact_partial : forall m id u ts r w g,
+Theorem C07_offer_exact : forall m id u ts r w g,
   Inv w -> action_ok w m (APush g id (Some u) ts r) -> c_group (w_cl w m) = Some g ->
   let w' := fst (push_down_conn m id (Some u) ts r w) in
   let sel := requested_tracks (push_req w m u r) ts in
@@ -213,34 +214,40 @@ Theorem C07_offer_exact_partial : forall m id u ts r w g,
       d_limit d = snd sel
   end.
 Proof. exact push_exact. Qed.
-Print Assumptions C07_offer_exact_partial.
+Print Assumptions C07_offer_exact.
 
-(* The statement at quiescence.  NOT proved (C07_offer_exact_partial is the
-   statement per evaluation).  It can only hold for a subscriber that sent no
-   abort / requestStream / refused answer for the stream.  Before the repair of
-   finding F26 (pushConn pushed to the clients that were in the group when the
-   push was SCHEDULED) it was false: a member that joined inside the push delay
-   of a stream was not offered it when its tracks arrived; [late_joiner_offered]
-   is that schedule on the repaired model, driver streams corpus-late-joiner*. *)
-Definition C07_offered_iff_requested_full_statement : Prop :=
-  forall n ops m u,
-    ok_run (init n) ops ->
-    Forall (fun o => match o with
-                     | OpMsg c (MRequestStream _ _) | OpMsg c (MAbort _) | OpMsg c (MAnswer _ _) => c <> m
-                     | _ => True
-                     end) ops ->
-    let w := run (init n) ops in
-    quiescentb w = true ->
-    c_dead (w_cl w m) = false ->
-    u < w_nup w -> uo_closed (w_up w u) = false -> uo_owner (w_up w u) <> m ->
-    c_group (w_cl w m) = Some (uo_group (w_up w u)) ->
-    let sel := requested_tracks (base_req (w_cl w m) (uo_label (w_up w u))) (uo_tracks (w_up w u)) in
-    match get_down (uo_id (w_up w u)) (c_down (w_cl w m)) with
-    | None => fst sel = []
-    | Some d => fst sel <> [] /\ d_remote d = u /\
-                (forall p, In p (d_tracks d) <-> In p (map (fun i => (u, i)) (fst sel))) /\
-                d_limit d = snd sel
-    end.
+(* offered iff requested: at quiescence, for every history and every schedule,
+   a live member m of a group and a live stream u of ANOTHER member of that
+   group: m holds a down stream for u if and only if requestedTracks selects
+   something from u's tracks under m's request for u's label (the entry of the
+   label if there is one, even an empty one, else the default entry), and then
+   it is attached to u and carries exactly the selected tracks, with limitSid
+   as selected.  uo_tracks u is the oracle "the stream has tracks of kinds K".
+   Hypothesis on m's own behaviour: m sent no abort / requestStream / answer
+   (these change or drop its own down stream: C07_own_abort_local).  No
+   hypothesis on OnTrack timing or on the moment at which delayed pushes fire.
+   (Before the repair of finding F26 this was false: driver streams
+   corpus-late-joiner*, example late_joiner_offered.) *)
+Theorem C07_offered_iff_requested : forall n ops m u,
+  ok_run (init n) ops ->
+  Forall (fun o => match o with
+                   | OpMsg c (MRequestStream _ _) | OpMsg c (MAbort _) | OpMsg c (MAnswer _ _) => c <> m
+                   | _ => True
+                   end) ops ->
+  let w := run (init n) ops in
+  quiescentb w = true ->
+  c_dead (w_cl w m) = false ->
+  u < w_nup w -> uo_closed (w_up w u) = false -> uo_owner (w_up w u) <> m ->
+  c_group (w_cl w m) = Some (uo_group (w_up w u)) ->
+  let sel := requested_tracks (base_req (w_cl w m) (uo_label (w_up w u))) (uo_tracks (w_up w u)) in
+  match get_down (uo_id (w_up w u)) (c_down (w_cl w m)) with
+  | None => fst sel = []
+  | Some d => fst sel <> [] /\ d_remote d = u /\
+              (forall p, In p (d_tracks d) <-> In p (map (fun i => (u, i)) (fst sel))) /\
+              d_limit d = snd sel
+  end.
+Proof. exact offered_iff_requested. Qed.
+Print Assumptions C07_offered_iff_requested.
 
 (* ------------------------------------------------------------------ *)
 (* Non-vacuity: a history that satisfies the hypothesis, reaches quiescence,
